@@ -684,7 +684,11 @@ func (f *frame) applyContract(fs *FuncSpec, callee *ssa.Function, sig *types.Sig
 						alts = append(alts, Ge(l.obj, alloc0))
 						for _, m := range c.modLocs {
 							if m.mapT == nil && m.allIdx && rootKey(m.root) == rootKey(l.root) && k >= m.lo && k < m.hi {
-								alts = append(alts, Eq(l.obj, m.obj))
+								if m.anyObj {
+									alts = append(alts, TTrue) // the caller may modify the whole family
+								} else {
+									alts = append(alts, Eq(l.obj, m.obj))
+								}
 							}
 						}
 						cs = append(cs, Or(alts...))
